@@ -140,6 +140,73 @@ theorem hull_chain_sub (pre post : List HTree) (c : HTree)
 
 example : Chain (tokens (.node ([] ++ .tok ⟨⟨1, 1⟩, ⟨1, 4⟩⟩ :: []))) := by decide
 
+/-- In the whole report `render()` prints, the quotation lines stand as lines of their own, directly behind the stack trace
+    lines and before the `name: message` line(s) (stack trace non-empty — it always starts with `Stacktrace:` — and its
+    lines and the quotation lines free of line feeds, which `__load_line` guarantees for the quoted line). -/
+theorem render_lines (traces quotation : List Str) (name message : Str) (hne : traces ≠ [])
+    (h : ∀ l ∈ traces ++ quotation, '\n' ∉ l) :
+    Str.splitOn '\n' (renderText traces quotation name message)
+      = traces ++ quotation ++ Str.splitOn '\n' (name ++ ':' :: ' ' :: message) := by
+  unfold renderText
+  rw [splitOn_join_append '\n' (traces ++ quotation) _ (by simp [hne]) h]
+
+example : Str.splitOn '\n' (renderText [['S']] [['v'], ['q']] ['E'] ['(', ')']) = [['S'], ['v'], ['q'], ['E', ':', ' ', '(', ')']] := by
+  decide
+
+/-- the quoted line of a report never contains a line feed (so `render_lines` applies to every quotation that is printed) -/
+theorem loadLine_no_lf (content line : Str) (i : Int) (h : loadLine content i = .ok line) : '\n' ∉ line := by
+  simp only [loadLine, bind, Except.bind, pure, Except.pure] at h
+  split at h
+  · cases h
+  · simp only [Except.ok.injEq] at h
+    subst h
+    simp [tabToSpace, dropNl]
+    intro x hx hne
+    split <;> simp_all
+
+example : loadLine ['a', '\n'] 0 = .ok ['a'] := rfl
+
+/-! ### the hull statements derived from the text (no assumption beyond the parser's interface, see Model/Hull.lean) -/
+
+/-- (line, column) computed from the text is monotone in the character offset -/
+theorem pos_mono (src : Str) (a b : Nat) (h : a ≤ b) : posOf src a ≤ posOf src b := posOf_mono src a b h
+
+example : posOf ['a', '\n', '\t', 'b'] 3 = ⟨2, 2⟩ := by decide
+
+/-- tokens handed out left to right (offsets `start ≤ end ≤ next start`) have ordered, non-overlapping (line, column) spans:
+    the `Chain` hypothesis of `hull_nest`/`hull_siblings` is a consequence, not an assumption -/
+theorem tokens_chain (src : Str) (toks : List OTok) (h : OffChain toks) : Chain (toks.map (tokSpan src)) :=
+  chain_of_offChain src toks h
+
+example : OffChain [⟨0, 1⟩, ⟨1, 3⟩, ⟨4, 4⟩] := by decide
+
+/-- For a tree that consumed the token interval `[lo, hi)` and whose children consume sub-intervals in order (the interface
+    hypothesis `wf`), every child's recorded span lies inside the tree's recorded span … -/
+theorem span_nest (src : Str) (toks : List OTok) (hoff : OffChain toks) (lo hi : Nat) (cs : List ITree)
+    (hwf : (ITree.node lo hi cs).wf = true) (hhi : hi ≤ toks.length) (c : ITree) (hc : c ∈ cs) :
+    ∃ p s, (ITree.node lo hi cs).span (toks.map (tokSpan src)) = some p ∧ c.span (toks.map (tokSpan src)) = some s
+      ∧ p.b ≤ s.b ∧ s.e ≤ p.e := by
+  simp only [ITree.wf, Bool.and_eq_true, decide_eq_true_eq] at hwf
+  obtain ⟨_, hm⟩ := childrenOrdered_mem lo hi cs hwf.1.2
+  obtain ⟨h1, h2, h3⟩ := hm c hc
+  exact span_nest_idx _ (chain_of_offChain src toks hoff) lo hi c.lo c.hi h1 h2 h3 (by simpa using hhi)
+
+example : (ITree.node 0 3 [.node 0 1 [], .node 1 3 [.node 2 3 []]]).wf = true := by decide
+
+/-- … and the spans of two children do not overlap and follow each other in the order of the children. -/
+theorem span_siblings (src : Str) (toks : List OTok) (hoff : OffChain toks) (lo hi : Nat) (pre mid post : List ITree)
+    (c1 c2 : ITree) (hwf : (ITree.node lo hi (pre ++ c1 :: (mid ++ c2 :: post))).wf = true) (hhi : hi ≤ toks.length) :
+    ∃ s1 s2, c1.span (toks.map (tokSpan src)) = some s1 ∧ c2.span (toks.map (tokSpan src)) = some s2 ∧ s1.e ≤ s2.b := by
+  simp only [ITree.wf, Bool.and_eq_true, decide_eq_true_eq] at hwf
+  obtain ⟨_, hm⟩ := childrenOrdered_mem lo hi _ hwf.1.2
+  have m1 := hm c1 (by simp)
+  have m2 := hm c2 (by simp)
+  have hp := childrenOrdered_pair lo hi pre mid post c1 c2 hwf.1.2
+  exact span_siblings_idx _ (chain_of_offChain src toks hoff) c1.lo c1.hi c2.lo c2.hi m1.2.1 hp m2.2.1
+    (by have := m2.2.2; simp; omega)
+
+example : (ITree.node 0 4 ([] ++ .node 0 1 [] :: ([.node 1 2 []] ++ .node 2 4 [] :: []))).wf = true := by decide
+
 /-- Spans and quotations survive the cache: for the tree restored by `EntryStored.save → load`, `Nodes.source_map` and the
     printed quotation agree with the fresh tree at every path (corollary of C15). -/
 theorem restore (t t' : LarkEntry) (h : storeLoad t = .ok t') :
